@@ -8,16 +8,17 @@ open CocoVerif.Model.B09Lib
 def ecb_instr : Proc :=
   { name := "ecb_instr", kinds := ["numeric", "string", "string", "numeric", "numeric"], nparams := 4,
     body := [
-      (.assign 3 (.num 0)),
       (.assign 4 (.fix (.var 0))),
+      (.assign 3 (.num 0)),
       (.while_ (.and_ (.eq (.var 3) (.num 0)) (.le (.var 4) (.add (.sub (.len (.var 1)) (.len (.var 2))) (.num 1)))) [(.ite (.eq (.var 2) (.mid (.var 1) (.var 4) (.len (.var 2)))) [(.assign 3 (.var 4))] []), (.assign 4 (.add (.var 4) (.num 1)))])] }
 
 def ecb_string : Proc :=
   { name := "ecb_string", kinds := ["numeric", "string", "string", "numeric"], nparams := 3,
     body := [
       (.ite (.or_ (.lt (.var 0) (.num 0)) (.eq (.len (.var 1)) (.num 0))) [(.error 52)] []),
-      (.assign 2 (.str "".toList)),
-      (.for_ 3 (.num 1) (.var 0) [(.assign 2 (.add (.var 2) (.mid (.var 1) (.num 1) (.num 1))))])] }
+      (.assign 2 (.mid (.var 1) (.num 1) (.num 1))),
+      (.for_ 3 (.num 2) (.var 0) [(.assign 2 (.add (.var 2) (.mid (.var 2) (.num 1) (.num 1))))]),
+      (.ite (.eq (.var 0) (.num 0)) [(.assign 2 (.str "".toList))] [])] }
 
 def ecb_read_filter : Proc :=
   { name := "ecb_read_filter", kinds := ["string", "numeric"], nparams := 2,
